@@ -269,6 +269,10 @@ func ruleLastClose(c *Ctx, m *multiModel) {
 // parameter whose argument at the go site is a field load.
 func chanFieldOf(c *Ctx, m *multiModel, pump *ssa.Function, v ssa.Value) string {
 	found := ""
+	isHolderLoad := func(x ssa.Value) bool {
+		t, _, _, ok := eng.FieldLoad(x)
+		return ok && m.holders[t]
+	}
 	for _, o := range c.P.Origins(v, eng.Plain) {
 		if t, f, _, ok := eng.FieldLoad(o); ok && m.holders[t] {
 			found = t + "." + f
@@ -288,6 +292,15 @@ func chanFieldOf(c *Ctx, m *multiModel, pump *ssa.Function, v ssa.Value) string 
 						}
 					}
 				}
+			}
+		}
+	}
+	if found == "" {
+		// the pump as a small struct with a run() method (and helpers of it): the channel is a field of that struct, filled
+		// from the listener's field where the goroutine is started
+		for _, o := range fsOrigins(c, v, isHolderLoad) {
+			if t, f, _, ok := eng.FieldLoad(o); ok && m.holders[t] {
+				found = t + "." + f
 			}
 		}
 	}
@@ -334,119 +347,153 @@ func ruleCancelPump(c *Ctx, m *multiModel, rule string) {
 	for _, pump := range m.pumps {
 		key := short(pump)
 		nSel := 0
-		for _, b := range pump.Blocks {
-			for _, ins := range b.Instrs {
-				switch v := ins.(type) {
-				case *ssa.Send:
-					// bare send: only on a private buffered response channel
-					ok, why := privateBufferedChan(c, v.Chan)
-					c.CheckAt(rule, key+":bare-send", v, ok, "bare channel send in the reader goroutine: if the last handle closes while this send is pending the goroutine never exits and the pending connection/datagram is never released ("+why+")")
-				case *ssa.UnOp:
-					if v.Op == token.ARROW {
-						c.CheckAt(rule, key+":bare-receive", v, false, "bare channel receive in the reader goroutine: not cancellable by the last release")
-					}
-				case *ssa.Select:
-					if !v.Blocking {
-						continue
-					}
-					nSel++
-					cancelK := -1
-					for k, st := range v.States {
-						if st.Dir == types.RecvOnly && done[chanFieldOf(c, m, pump, st.Chan)] {
-							cancelK = k
+		// the pump's family: the goroutine function and the helpers of its package it calls (offer(resp) bool, serve(...) bool)
+		family := []*ssa.Function{pump}
+		for _, h := range regionFns(c, pump, nil, 2) {
+			if h != pump {
+				family = append(family, h)
+			}
+		}
+		var acceptCalls []*ssa.Call
+		for _, cl := range eng.Calls(pump) {
+			if call, ok := cl.(*ssa.Call); ok && strings.HasPrefix(eng.MethodName(&call.Call), "Accept") {
+				acceptCalls = append(acceptCalls, call)
+			}
+		}
+		isAccepted := func(x ssa.Value, idx int) bool {
+			cc, i, ok := eng.AsResult(x)
+			if !ok || i != idx {
+				return false
+			}
+			for _, a := range acceptCalls {
+				if a == cc {
+					return true
+				}
+			}
+			return false
+		}
+		for _, fn := range family {
+			for _, b := range fn.Blocks {
+				for _, ins := range b.Instrs {
+					switch v := ins.(type) {
+					case *ssa.Send:
+						// bare send: only on a private buffered response channel
+						ok, why := privateBufferedChan(c, v.Chan)
+						c.CheckAt(rule, key+":bare-send", v, ok, "bare channel send in the reader goroutine: if the last handle closes while this send is pending the goroutine never exits and the pending connection/datagram is never released ("+why+")")
+					case *ssa.UnOp:
+						if v.Op == token.ARROW {
+							c.CheckAt(rule, key+":bare-receive", v, false, "bare channel receive in the reader goroutine: not cancellable by the last release")
 						}
-					}
-					c.CheckAt(rule, key+":select-has-cancel-arm", v, cancelK >= 0, "blocking select in the reader goroutine has no receive arm on a channel that the last release closes")
-					if cancelK < 0 {
-						continue
-					}
-					// pending connection closed on the cancel arm (only when the pump accepts connections)
-					var acceptCalls []*ssa.Call
-					for _, cl := range eng.Calls(pump) {
-						if call, ok := cl.(*ssa.Call); ok && strings.HasPrefix(eng.MethodName(&call.Call), "Accept") {
-							acceptCalls = append(acceptCalls, call)
-						}
-					}
-					if len(acceptCalls) > 0 {
-						e, ok := selectArmEdge(v, cancelK)
-						if !ok {
-							c.Undecided(rule, key+":cancel-arm-edge", p.IPos(v), "cannot locate the branch taken for the cancel arm")
+					case *ssa.Select:
+						if !v.Blocking {
 							continue
 						}
-						isConnClose := func(ins ssa.Instruction) bool {
-							call, ok := ins.(*ssa.Call)
-							if !ok || eng.MethodName(&call.Call) != "Close" {
-								return false
+						nSel++
+						cancelK := -1
+						for k, st := range v.States {
+							if st.Dir == types.RecvOnly && done[chanFieldOf(c, m, pump, st.Chan)] {
+								cancelK = k
 							}
-							r := eng.Receiver(&call.Call)
-							return r != nil && p.AnyFrom(r, eng.Plain, func(x ssa.Value) bool {
-								cc, idx, ok := eng.AsResult(x)
-								if !ok || idx != 0 {
+						}
+						c.CheckAt(rule, key+":select-has-cancel-arm", v, cancelK >= 0, "blocking select in the reader goroutine has no receive arm on a channel that the last release closes")
+						if cancelK < 0 {
+							continue
+						}
+						// pending connection closed on the cancel arm (only when the pump accepts connections)
+						if len(acceptCalls) > 0 {
+							e, ok := selectArmEdge(v, cancelK)
+							if !ok {
+								c.Undecided(rule, key+":cancel-arm-edge", p.IPos(v), "cannot locate the branch taken for the cancel arm")
+								continue
+							}
+							isConnClose := func(ins ssa.Instruction) bool {
+								call, ok := ins.(*ssa.Call)
+								if !ok || eng.MethodName(&call.Call) != "Close" {
 									return false
 								}
-								for _, a := range acceptCalls {
-									if a == cc {
+								r := eng.Receiver(&call.Call)
+								if r == nil {
+									return false
+								}
+								if p.AnyFrom(r, eng.Plain, func(x ssa.Value) bool { return isAccepted(x, 0) }) {
+									return true
+								}
+								for _, o := range fsOrigins(c, r) {
+									if isAccepted(o, 0) {
 										return true
 									}
 								}
 								return false
-							})
-						}
-						// every way out of the cancel arm on which the accept had succeeded passes the Close of that connection
-						var acs []ssa.CallInstruction
-						for _, a := range acceptCalls {
-							acs = append(acs, a)
-						}
-						_, fail := p.SuccessEdges(pump, acs, 1)
-						leak := ""
-						seenB := map[*ssa.BasicBlock]bool{}
-						var walkB func(b *ssa.BasicBlock, from int)
-						walkB = func(b *ssa.BasicBlock, from int) {
-							if from == 0 {
-								if seenB[b] {
-									return
-								}
-								seenB[b] = true
 							}
-							for i := from; i < len(b.Instrs); i++ {
-								ins := b.Instrs[i]
-								if isConnClose(ins) {
-									return
+							// every way out of the cancel arm on which the accept had succeeded passes the Close of that connection
+							var acs []ssa.CallInstruction
+							for _, a := range acceptCalls {
+								acs = append(acs, a)
+							}
+							fail := eng.EdgeSet{}
+							if fn == pump {
+								_, fail = p.SuccessEdges(pump, acs, 1)
+							} else {
+								// in a helper the accept's error arrives as (a field of) a parameter
+								_, fail = p.NilEdges(fn, func(x ssa.Value) bool {
+									for _, o := range fsOrigins(c, x) {
+										if isAccepted(o, 1) {
+											return true
+										}
+									}
+									return false
+								})
+							}
+							leak := ""
+							seenB := map[*ssa.BasicBlock]bool{}
+							var walkB func(b *ssa.BasicBlock, from int)
+							walkB = func(b *ssa.BasicBlock, from int) {
+								if from == 0 {
+									if seenB[b] {
+										return
+									}
+									seenB[b] = true
 								}
-								if _, isSel := ins.(*ssa.Select); isSel && ins != ssa.Instruction(v) {
-									return
+								for i := from; i < len(b.Instrs); i++ {
+									ins := b.Instrs[i]
+									if isConnClose(ins) {
+										return
+									}
+									if _, isSel := ins.(*ssa.Select); isSel && ins != ssa.Instruction(v) {
+										return
+									}
+									if _, isRet := ins.(*ssa.Return); isRet && leak == "" {
+										leak = p.IPos(ins)
+									}
 								}
-								if _, isRet := ins.(*ssa.Return); isRet && leak == "" {
-									leak = p.IPos(ins)
+								for _, sb := range b.Succs {
+									if fail[eng.Edge{From: b, To: sb}] {
+										continue
+									}
+									if sb == v.Block() {
+										leak = "back to the accept loop at " + blockPos(p, sb)
+										continue
+									}
+									walkB(sb, 0)
 								}
 							}
-							for _, sb := range b.Succs {
-								if fail[eng.Edge{From: b, To: sb}] {
-									continue
-								}
-								if sb == v.Block() {
-									leak = "back to the accept loop at " + blockPos(p, sb)
-									continue
-								}
-								walkB(sb, 0)
+							walkB(e.To, 0)
+							c.CheckAt(rule, key+":cancel-arm-closes-pending-conn", v, leak == "", "on the cancel arm an accepted connection that can no longer be delivered is left open (a path on which the accept succeeded leaves without closing it: "+leak+")")
+						}
+						// PROMPTREPLY: on every non-cancel receive arm, no blocking socket call before the reply is sent
+						for k, st := range v.States {
+							if k == cancelK || st.Dir != types.RecvOnly {
+								continue
 							}
+							e, ok := selectArmEdge(v, k)
+							if !ok {
+								c.Undecided("PROMPTREPLY", key+":request-arm-edge", p.IPos(v), "cannot locate the branch taken for the request arm")
+								continue
+							}
+							isSend := func(ins ssa.Instruction) bool { _, ok := ins.(*ssa.Send); return ok }
+							ok2, bad := eng.MustPassBefore(edgePoint(e), isSend, isBlockingSocketCall)
+							c.CheckAt("PROMPTREPLY", key+":reply-without-blocking", v, ok2, fmt.Sprintf("after taking a read request the reader goroutine makes a blocking socket call at %s before answering: the requesting handle waits for the answer without watching its close signal, so Close no longer unblocks it and a closed handle can receive the next datagram", p.IPos(bad)))
 						}
-						walkB(e.To, 0)
-						c.CheckAt(rule, key+":cancel-arm-closes-pending-conn", v, leak == "", "on the cancel arm an accepted connection that can no longer be delivered is left open (a path on which the accept succeeded leaves without closing it: "+leak+")")
-					}
-					// PROMPTREPLY: on every non-cancel receive arm, no blocking socket call before the reply is sent
-					for k, st := range v.States {
-						if k == cancelK || st.Dir != types.RecvOnly {
-							continue
-						}
-						e, ok := selectArmEdge(v, k)
-						if !ok {
-							c.Undecided("PROMPTREPLY", key+":request-arm-edge", p.IPos(v), "cannot locate the branch taken for the request arm")
-							continue
-						}
-						isSend := func(ins ssa.Instruction) bool { _, ok := ins.(*ssa.Send); return ok }
-						ok2, bad := eng.MustPassBefore(edgePoint(e), isSend, isBlockingSocketCall)
-						c.CheckAt("PROMPTREPLY", key+":reply-without-blocking", v, ok2, fmt.Sprintf("after taking a read request the reader goroutine makes a blocking socket call at %s before answering: the requesting handle waits for the answer without watching its close signal, so Close no longer unblocks it and a closed handle can receive the next datagram", p.IPos(bad)))
 					}
 				}
 			}
@@ -454,24 +501,62 @@ func ruleCancelPump(c *Ctx, m *multiModel, rule string) {
 		c.Floor(rule, "blocking selects in "+key, nSel, 1)
 		// the reader goroutine stops only when the socket was closed (errors.Is(err, net.ErrClosed)) or on its cancel arm: a
 		// transient accept/read error must not end it while handles are open — nothing would read the socket any more
-		cancelEdges := eng.EdgeSet{}
-		for _, b := range pump.Blocks {
-			for _, ins := range b.Instrs {
-				if v, ok := ins.(*ssa.Select); ok && v.Blocking {
-					for k, st := range v.States {
-						if st.Dir == types.RecvOnly && done[chanFieldOf(c, m, pump, st.Chan)] {
-							if e, ok := selectArmEdge(v, k); ok {
-								cancelEdges[e] = true
+		cancelIn := func(fn *ssa.Function) eng.EdgeSet {
+			out := eng.EdgeSet{}
+			for _, b := range fn.Blocks {
+				for _, ins := range b.Instrs {
+					if v, ok := ins.(*ssa.Select); ok && v.Blocking {
+						for k, st := range v.States {
+							if st.Dir == types.RecvOnly && done[chanFieldOf(c, m, pump, st.Chan)] {
+								if e, ok := selectArmEdge(v, k); ok {
+									out[e] = true
+								}
 							}
 						}
 					}
 				}
 			}
+			return out
 		}
+		cancelEdges := cancelIn(pump)
 		for _, b := range pump.Blocks {
 			iff, ok := b.Instrs[len(b.Instrs)-1].(*ssa.If)
 			if ok && isErrClosedTest(iff.Cond) {
 				cancelEdges[eng.Edge{From: b, To: b.Succs[0]}] = true
+			}
+		}
+		// a helper that answers false exactly on its cancel arm: the false edge of its call is a cancel edge of the pump
+		for _, cl := range eng.Calls(pump) {
+			call, ok := cl.(*ssa.Call)
+			if !ok {
+				continue
+			}
+			h := call.Call.StaticCallee()
+			if h == nil || !p.InRepo(h) || len(h.Blocks) == 0 || h.Signature.Results().Len() != 1 || h.Signature.Results().At(0).Type().String() != "bool" {
+				continue
+			}
+			ce := cancelIn(h)
+			if len(ce) == 0 {
+				continue
+			}
+			okH := true
+			for _, r := range eng.Returns(h) {
+				cst, isC := retVal(p, r).(*ssa.Const)
+				if !isC || cst.Value == nil {
+					okH = false
+					continue
+				}
+				isFalse := cst.Value.ExactString() == "false"
+				if isFalse && !eng.Cut(h, r.Block(), ce) {
+					okH = false // answers false on a path that is not the cancel arm
+				}
+			}
+			if !okH {
+				continue
+			}
+			_, fe := eng.BoolEdges(pump, func(v ssa.Value) bool { return v == ssa.Value(call) })
+			for e := range fe {
+				cancelEdges[e] = true
 			}
 		}
 		for i, r := range eng.Returns(pump) {
